@@ -27,6 +27,10 @@ inductive Pred where
   | last                   -- [last()]
   | posEq (k : Nat)        -- [position()=k]
   | posNeLast              -- [position()!=last()]
+  | lastEq (k : Nat)       -- [last()=k]        last() inside a comparison, no position()
+  | lastGt (k : Nat)       -- [last()>k]
+  | posLtLast              -- [position()<last()]
+  | lastMinus1             -- [last()-1]        last() inside arithmetic: a number
   | attr (x : String)      -- [@x]
   | child (x : String)     -- [x]
   | notAttr (x : String)   -- [not(@x)]
@@ -51,24 +55,22 @@ structure Path where
   steps : List (Sep × Step)
 deriving DecidableEq, Repr, Inhabited
 
+/-- `IdKeyPattern (('/' | '//') RelativePathPattern)?`: `txt` is the call as written (`id('v')`), `S` the node-set it
+evaluates to in the document at hand (it does not depend on the context node); every step carries the separator
+before it, the first one being the separator after the call -/
+structure FnPath where
+  txt : String
+  S : List Nat
+  steps : List (Sep × Step)
+deriving DecidableEq, Repr, Inhabited
+
 /-- Pattern ::= LocationPathPattern ('|' LocationPathPattern)* -/
 abbrev Pattern := List Path
 
-/-- predicates whose evaluation calls `position()` -/
-def Pred.callsPosition : Pred → Bool
-  | .posEq _ | .posNeLast => true
-  | _ => false
-
-/-- **Domain of validity of the model** (enforced by the driver and the generator): at most one predicate of a
-step calls `position()`.  `XPathExecutionContextDefault::getContextNodeListPosition` caches the last
-(node, position) pair and `XPath::predicates` does not clear the cache between two predicates of one step, so
-`*[position()=2][position()=1]` evaluates to the empty set on `<a><b/><b/></a>` (stale position 2 for the
-surviving node).  That is a defect of expression evaluation (property C02), observed here and reported; the
-transcription below does not contain the cache, hence this restriction. -/
-def Step.valid (s : Step) : Bool := (s.preds.filter Pred.callsPosition).length ≤ 1
-
+/-- (An earlier version restricted steps to one `position()`-calling predicate because of the stale
+context-position cache of `XPathExecutionContextDefault`; that defect was repaired in /repo by 5c6363f and the
+restriction is lifted: any predicate list is in the model's domain.) -/
 def Path.valid (p : Path) : Bool :=
-  p.steps.all (fun x => x.2.valid) &&
   match p.abs, p.steps with
   | true, _ => true
   | false, [] => false
@@ -90,6 +92,10 @@ def Pred.render : Pred → String
   | .last => "[last()]"
   | .posEq k => "[position()=" ++ toString k ++ "]"
   | .posNeLast => "[position()!=last()]"
+  | .lastEq k => "[last()=" ++ toString k ++ "]"
+  | .lastGt k => "[last()>" ++ toString k ++ "]"
+  | .posLtLast => "[position()<last()]"
+  | .lastMinus1 => "[last()-1]"
   | .attr x => "[@" ++ x ++ "]"
   | .child x => "[" ++ x ++ "]"
   | .notAttr x => "[not(@" ++ x ++ ")]"
@@ -107,6 +113,9 @@ def Path.render (p : Path) : String :=
   | (s0, st0) :: rest =>
     (if p.abs then s0.render else "") ++ st0.render ++
       String.join (rest.map fun (s, st) => s.render ++ st.render)
+
+def FnPath.render (p : FnPath) : String :=
+  p.txt ++ String.join (p.steps.map fun (s, st) => s.render ++ st.render)
 
 def Pattern.render (p : Pattern) : String := "|".intercalate (p.map Path.render)
 
@@ -136,6 +145,10 @@ def predVal (d : Doc) (p : Pred) (m pos size : Nat) : PVal :=
   | .last => .num size
   | .posEq k => .bool (pos == k)
   | .posNeLast => .bool (pos != size)
+  | .lastEq k => .bool (size == k)
+  | .lastGt k => .bool (decide (size > k))
+  | .posLtLast => .bool (decide (pos < size))
+  | .lastMinus1 => .num (size - 1)
   | .attr x => .bool ((d.attrs m).any fun a => d.name a == x)
   | .child x => .bool ((d.children m).any fun c => d.kind c == .elem && d.name c == x)
   | .notAttr x => .bool (!(d.attrs m).any fun a => d.name a == x)
@@ -163,6 +176,10 @@ def fwd (d : Doc) : List (Sep × Step) → Nat → Nat → Bool
 
 /-- `n ∈ ⟦p⟧(A)`; an absolute path starts at the root of the document containing `A` (node 0) -/
 def selects (d : Doc) (p : Path) (A n : Nat) : Bool := fwd d p.steps (if p.abs then 0 else A) n
+
+/-- an id()/key()-leading pattern read as an expression selects the same nodes from every context: those reached
+from a node of the call's node-set by the remaining steps -/
+def matchesFn (d : Doc) (p : FnPath) (n : Nat) : Bool := p.S.any fun k => fwd d p.steps k n
 
 def matchesPath (d : Doc) (p : Path) (n : Nat) : Bool := (d.ancOrSelf n).any fun A => selects d p A n
 
